@@ -130,11 +130,14 @@ func (f *fieldSelectionMergingVisitor) EnterField(ref int) {
 		for _, i := range matchedRequirements {
 
 			if !f.potentiallySameObject(fieldDefinitionTypeNode, f.nonScalarRequirements[i].fieldTypeDefinitionNode) {
-				// This condition below can never be true because if objects aren't potentially the same,
-				// and we know objectNames are equal (from the filter), they cannot be not equal at the same time.
-				// Perhaps this should be remove altogether?
-				if !objectName.Equals(f.nonScalarRequirements[i].objectName) {
-					f.StopWithExternalErr(operationreport.ErrResponseOfDifferingTypesMustBeOfSameShape(objectName, f.nonScalarRequirements[i].objectName))
+				// Different composite types: their selections are compared field by field (they share the
+				// path), the types themselves only have to be wrapped in the same lists and non-nulls.
+				ignoreNullability := f.relaxNullabilityCheck &&
+					!f.potentiallySameObject(f.nonScalarRequirements[i].enclosingTypeDefinition, f.EnclosingTypeDefinition)
+				if !f.sameTypeWrappers(f.nonScalarRequirements[i].fieldTypeRef, fieldType, ignoreNullability) {
+					left, _ := f.definition.PrintTypeBytes(f.nonScalarRequirements[i].fieldTypeRef, nil)
+					right, _ := f.definition.PrintTypeBytes(fieldType, nil)
+					f.StopWithExternalErr(operationreport.ErrTypesForFieldMismatch(objectName, left, right))
 					return
 				}
 			} else {
@@ -248,6 +251,26 @@ func (f *fieldSelectionMergingVisitor) EnterField(ref int) {
 		enclosingTypeDefinition: f.EnclosingTypeDefinition,
 		fieldTypeDefinitionNode: fieldDefinitionTypeNode,
 	})
+}
+
+// sameTypeWrappers reports whether two types have the same list structure and, unless
+// ignoreNullability is set, the same non-null markers, whatever their named types are.
+func (f *fieldSelectionMergingVisitor) sameTypeWrappers(left, right int, ignoreNullability bool) bool {
+	for {
+		if ignoreNullability && f.definition.Types[left].TypeKind == ast.TypeKindNonNull {
+			left = f.definition.Types[left].OfType
+		}
+		if ignoreNullability && f.definition.Types[right].TypeKind == ast.TypeKindNonNull {
+			right = f.definition.Types[right].OfType
+		}
+		if f.definition.Types[left].TypeKind != f.definition.Types[right].TypeKind {
+			return false
+		}
+		if f.definition.Types[left].TypeKind == ast.TypeKindNamed {
+			return true
+		}
+		left, right = f.definition.Types[left].OfType, f.definition.Types[right].OfType
+	}
 }
 
 // potentiallySameObject reports whether two enclosing type definitions could apply
